@@ -90,6 +90,24 @@ fn gen_content(r: &mut Rng) -> Vec<Piece> {
         ps.insert(at, Piece::Token);
     }
     // adjacency / start / end happen naturally (texts can be empty, insert positions are uniform)
+    // big files: every token far from the start (long licence text before the docblock, token in a trailer), or a
+    // token straddling a power-of-two offset - anything that only looks at a prefix / a window of the file shows here
+    if r.chance(1, 10) {
+        let boundary = r.pick(&[1024usize, 4096, 8192, 65536]);
+        let target = match r.below(3) {
+            0 => boundary + r.below(3000),                 // whole token behind the boundary
+            1 => boundary.saturating_sub(5 + r.below(40)), // token straddles the boundary
+            _ => boundary / 2 + r.below(boundary),
+        };
+        let mut pre = String::with_capacity(target + 8);
+        while pre.len() < target {
+            pre.push_str(r.pick(&["// licence text, line after line\n", "lorem ipsum ", "é€ ", "x", "\n", " * "]));
+        }
+        while pre.len() > target {
+            pre.pop();
+        }
+        ps.insert(0, Piece::Text(pre));
+    }
     ps
 }
 
